@@ -78,6 +78,16 @@ class PDict(object):
         return 'PDict(%r)' % (self.val,)
 
 
+class PMap(object):
+    """Mutable dict str -> int with symbolic contents: domain, values, size (z3 arrays / Int)."""
+
+    def __init__(self, dom, val, size):
+        self.dom, self.val, self.size = dom, val, size
+
+    def copy(self):
+        return PMap(self.dom, self.val, self.size)
+
+
 class PSet(object):
     def __init__(self, val=None):
         self.val = set(val or ())
@@ -185,6 +195,31 @@ class EncStr(T):
 
     def __repr__(self):
         return 'EncStr(%s)' % self.alpha.name
+
+
+class MapStrInt(T):
+    """field/parameter type: a dict str -> int with arbitrary (symbolic) contents"""
+
+    def fresh(self, name):
+        S, I, B = z3.StringSort(), z3.IntSort(), z3.BoolSort()
+        return PMap(z3.FreshConst(z3.ArraySort(S, B), name + '_dom'), z3.FreshConst(z3.ArraySort(S, I), name + '_val'),
+                    z3.FreshConst(I, name + '_size'))
+
+    def __repr__(self):
+        return 'MapStrInt'
+
+
+class DictWith(T):
+    """field/parameter type: a dict with exactly the given concrete keys (values of the given types)"""
+
+    def __init__(self, items):
+        self.items = dict(items)
+
+    def fresh(self, name):
+        return PDict(dict((k, ty.fresh('%s_%s' % (name, k))) for k, ty in self.items.items()))
+
+    def __repr__(self):
+        return 'DictWith(%s)' % sorted(self.items)
 
 
 class Obj(T):
@@ -343,7 +378,7 @@ PURE_STR_METHODS = ('join', 'split', 'startswith', 'endswith', 'strip', 'rstrip'
 def has_sym(v):
     if isinstance(v, (tuple, list)):
         return any(has_sym(x) for x in v)
-    return is_sym(v) or isinstance(v, (PList, PDict, PObj, PGen))
+    return is_sym(v) or isinstance(v, (PList, PDict, PObj, PGen, PMap))
 
 
 def is_pow2(n):
@@ -489,6 +524,8 @@ class Engine(object):
             return bool(v.val)
         if isinstance(v, (PObj, PFunc, PBound, PExc)):
             return True
+        if isinstance(v, PMap):
+            return v.size != 0
         if isinstance(v, Sym):
             raise Unsupported('truth of %r' % v)
         return bool(v)
@@ -570,6 +607,8 @@ class Engine(object):
                 c.fields[k] = self.snapshot_obj(v)
             elif isinstance(v, PDict):
                 c.fields[k] = PDict(v.val)
+            elif isinstance(v, PMap):
+                c.fields[k] = v.copy()
             else:
                 c.fields[k] = v
         return c
@@ -582,6 +621,7 @@ class Engine(object):
             if n in c.raises:
                 cond = c.raises[n]
                 if cond is True:
+                    self.oblige('%s.raises.%s' % (c.funcname, n), z3.BoolVal(True), kind='raises')
                     self.cover('%s.raise.%s' % (c.funcname, n))
                     return
                 f = Frame(parent=self.entry_frame())
@@ -1519,6 +1559,8 @@ class Engine(object):
                       'Gt': ta > tb, 'GtE': ta >= tb}[k])
 
     def contains(self, container, x):
+        if isinstance(container, PMap):
+            return SBool(z3.Select(container.dom, term_of(x)))
         if isinstance(container, PList) and isinstance(container.val, list):
             container = container.val
         if isinstance(container, PDict):
@@ -1581,6 +1623,11 @@ class Engine(object):
                         z3.And(ti >= -n, ti < n), 'safety')
             i = z3.If(ti >= 0, ti, ti + n)
             return SStr(z3.SubString(obj.t, i, 1))
+        if isinstance(obj, PMap):
+            k = term_of(idx)
+            if not getattr(self, 'in_spec', False):
+                self.oblige('%s.key@%s' % (self.c.funcname, self.rel(node)), z3.Select(obj.dom, k), 'safety')
+            return SInt(z3.Select(obj.val, k))
         if isinstance(obj, PDict):
             obj = obj.val
         if isinstance(obj, dict):
@@ -1674,6 +1721,12 @@ class Engine(object):
                             z3.Extract(val.t, i + 1, n - i - 1))
             obj.val = SSeq(new, val.et)
             return
+        if isinstance(obj, PMap):
+            k = term_of(idx)
+            obj.size = z3.If(z3.Select(obj.dom, k), obj.size, obj.size + 1)
+            obj.dom = z3.Store(obj.dom, k, z3.BoolVal(True))
+            obj.val = z3.Store(obj.val, k, Int.unwrap(v))
+            return
         if isinstance(obj, PDict):
             if is_sym(idx):
                 raise Unsupported('symbolic dict key store')
@@ -1710,6 +1763,8 @@ class Engine(object):
         if isinstance(obj, PObj):
             if name in obj.fields:
                 return obj.fields[name]
+            if name == '__class__':
+                return obj.cls
             cls = obj.cls
             if isinstance(cls, type) and hasattr(cls, name):
                 a = inspect.getattr_static(cls, name)
@@ -1960,6 +2015,12 @@ class Engine(object):
             q = '%s:%s' % (a.__module__, a.__qualname__)
             if q in self.registry:
                 return self.call_contract(self.registry[q], [recv] + list(args), kwargs, node)
+            if q in self.c.env.get('__inline__', ()):
+                # a private helper of the same class, inlined: its body is part of the verified text (stated)
+                from .. import scratch as _scratch
+                pnode, _, _ = load_function(a.__module__, a.__qualname__, _scratch.scratch_src())
+                self.trusted_used['inlined:' + q] = self.trusted_used.get('inlined:' + q, 0) + 1
+                return self.call_closure(PFunc(pnode, Frame(), name), [recv] + list(args), kwargs)
             raise Unsupported('method %s without contract' % q)
         if isinstance(recv, str) and name == 'join':
             return self.str_join(recv, args[0], node)
@@ -2152,6 +2213,8 @@ class Engine(object):
             v = v.val
         if isinstance(v, PDict):
             return len(v.val)
+        if isinstance(v, PMap):
+            return SInt(v.size)
         if isinstance(v, PGen):
             if getattr(self, 'in_spec', False):
                 return self.builtin_len(v.items if isinstance(v.items, list) else v.items)
